@@ -94,7 +94,10 @@ theorem setRemote_failed (pc : Pc) (d : Desc) (hf : (setRemote pc d).1.failed = 
     | some e => rfl
     | none =>
       rw [hv] at hf
-      by_cases ha : (d.type == .answer) = true <;> simp [ha, Res.failed] at hf
+      by_cases hc : pc.isClosed = true
+      · simp [hc]
+      · simp only [hc] at hf
+        by_cases ha : (d.type == .answer) = true <;> simp [ha, Res.failed] at hf
 
 /-- **No side effects**: whenever a call raises (InvalidStateError, ValueError or anything else), the
 whole modelled state — signalling state, closed latch, all four description slots, the number of
@@ -152,6 +155,13 @@ theorem setRemote_eq {pc : Pc} (hinv : Inv pc) (d : Desc) (ht : d.type = .offer 
   cases hn : next pc.sig false d.type with
   | none => simp [Res.verdict]
   | some s' =>
+    have hcl : pc.isClosed = false := by
+      cases h : pc.isClosed with
+      | false => rfl
+      | true =>
+        have := hinv.closed_iff.mp h
+        rw [this] at hn
+        rcases ht with h | h <;> simp [h, next] at hn
     by_cases ha : acceptable d pc.localDescription = true
     · rcases ht with ht | ht <;> cases hs : pc.sig <;>
         simp_all [Res.verdict, next, Pc.setSig, Pc.localDescription, Pc.remoteDescription]
@@ -358,6 +368,10 @@ theorem legal_applied {pc : Pc} (hinv : Inv pc) (d : Desc) (isLocal : Bool) (s' 
     rcases ht with ht | ht <;> cases hs : pc.sig <;> simp [hs, ht, next] at hleg <;> subst hleg <;>
       simp_all [step, setLocal, applyLocal, next, Pc.setSig, Pc.localDescription, Pc.remoteDescription]
   | false =>
+    have hcl : pc.isClosed = false := by
+      cases h : pc.isClosed with
+      | false => rfl
+      | true => have := hinv.closed_iff.mp h; rw [this] at hleg; rcases ht with h | h <;> simp [h, next] at hleg
     simp only [Bool.false_eq_true, if_false] at hok
     have hv := validate_eq pc d false hinv ht
     rcases ht with ht | ht <;> cases hs : pc.sig <;> simp [hs, ht, next] at hleg <;> subst hleg <;>
@@ -472,13 +486,13 @@ theorem orig_answer_without_setup_crashes :
       validate haveLocal answerNoSetup false = some .valueError := by
   decide
 
-/-- Outside the alphabet: aiortc does not reject a `rollback` (or `pranswer`) description on a closed
-connection — `setRemoteDescription` has no closed check and its state table only knows offers and
-answers — and stores it as the pending remote description. -/
-theorem ext_types_not_rejected_when_closed :
+/-- Outside the alphabet: a `rollback` (or `pranswer`) description on a closed connection is rejected
+with InvalidStateError and changes nothing (since the `fix:` that makes `close()` cancel pending
+negotiation; before it, aiortc stored it as the pending remote description). -/
+theorem ext_types_rejected_when_closed :
     let closedPc := (step Pc.init .close).2
-    (step closedPc (.setRemote rollbackD)).1 = .ok ∧
-      (step closedPc (.setRemote rollbackD)).2.remoteDescription = some rollbackD := by
+    (step closedPc (.setRemote rollbackD)).1 = .invalidState ∧
+      (step closedPc (.setRemote rollbackD)).2 = closedPc := by
   decide
 
 /-! ## Non-vacuity: the hypotheses are satisfiable and the machine really moves -/
